@@ -54,6 +54,19 @@ theorem Sim.noPanic {α β : Type} {R : α → β → Prop} {x : Except Err α} 
     rename_i e1 e2
     cases e1 <;> cases e2 <;> simp_all [normErr, NoPanic]
 
+/-- observable outcome of a computation: its result under `f`, errors up to `normErr` -/
+def outcome {α β : Type} (f : α → β) (x : Except Err α) : Except Err β :=
+  match x with
+  | .ok a => .ok (f a)
+  | .error e => .error (normErr e)
+
+theorem outcome_eq_of_sim {α β γ : Type} {R : α → β → Prop} {x : Except Err α} {y : Except Err β}
+    (f : α → γ) (g : β → γ) (h : Sim R x y) (hfg : ∀ a b, R a b → f a = g b) :
+    outcome f x = outcome g y := by
+  cases h with
+  | ok hr => simp [outcome, hfg _ _ hr]
+  | err he => simp [outcome, he]
+
 /-! ### the bit loops in lock step -/
 
 /-- state of `traverse_path_with_vec` ↔ state of `traverse_path` on the list stack -/
